@@ -1313,6 +1313,8 @@ class LiteralValue:
 
     def __init__(self, value):
         self.value = value
+        # Like Type.__init__: attributes added to one value must not land in the class-level table
+        self.fields = self.fields.copy()
 
     def promote(self):
         return self.parents[0]
